@@ -14,17 +14,18 @@ RULE = ('cases = (start, end) in {zbl, bornmayer, buck, morse, coul+buck, polyno
         'nextafter neighbours, +-1e-6, interior lattice, outside); every case executed; non-trivial = every case (all end potentials curved)')
 ASSUMPTIONS = [
     'the advertised shapes: exp(sum B_i r^i) + C from the public splineCoefficients; 5th-order polynomial below r_min, 3rd-order above',
-    'continuity is judged on the advertised shape evaluated from splineCoefficients against exact jets of the end potentials with a residual '
-    'tolerance 1e-9*scale + 200*eps*cond*scale (cond = condition number of the documented linear system, computed by the reference); '
-    'systems with cond > 1e10 are skipped and counted',
+    'continuity is judged on the advertised shape evaluated from splineCoefficients against exact jets of the end potentials; allowance = backward-error bound of the '
+    'documented linear solve, 2e4*eps*(|A||x| + |b|) per join condition (in log space for the exponential spline), plus the documented finite-difference error when an '
+    'end potential has no analytic derivative; no spline of the lattice is skipped',
     'lattices of knots and potentials, not all reals',
 ]
-BOUNDS = {'quick': '36 end pairs x 9 knot pairs (+ integer knots) x {exp_spline, buck4_spline x 3 r_min}', 'thorough': '36 end pairs x 25 knot pairs x 5 r_min'}
+BOUNDS = {'quick': '49 end pairs (incl. a custom formula) x 18 knot pairs (integer-typed and far windows up to 11-12 A) x {exp_spline, buck4_spline x 3 r_min}', 'thorough': '49 end pairs x 34 knot pairs x 5 r_min'}
 
 ENDS = {
     'zbl': form('zbl', 14, 8), 'bornmayer': form('bornmayer', 850.0, 0.35), 'buck': form('buck', 1000.0, 0.3, 32.0),
     'morse': form('morse', 1.8, 2.0, 0.6), 'coul+buck': mod('sum', form('coul', 2.4, -1.2), form('buck', 500.0, 0.32, 12.0)),
     'polynomial': form('polynomial', 3.0, -1.0, 0.2),
+    'custom': {"custom": "mix", "params": [700.0, 0.4]},      # a [Potential-Form] formula: no analytic derivatives, only through the spline() modifier
 }
 
 
@@ -33,7 +34,7 @@ def knots(tier):
         ks = [(d, a) for d in (0.6, 1.0, 1.2) for a in (1.4, 2.2, 2.6)]
     else:
         ks = [(d, a) for d in (0.6, 0.8, 1.0, 1.1, 1.2) for a in (1.4, 1.8, 2.2, 2.5, 2.6)]
-    return ks + [(1, 3), (1, 2), (2, 3)]
+    return ks + [(1, 3), (1, 2), (2, 3)] + [(4.0, 5.0), (6.0, 8.0), (7.5, 8.0), (9.0, 10.0), (9.5, 10.0), (11.0, 12.0)]
 
 
 def cases(tier):
@@ -106,23 +107,6 @@ def cond_of(case):
     return float(np.linalg.cond(np.array(rows)))
 
 
-def uncertainty(case, sj, ej, coeffs):
-    """rounding uncertainty of the solution of the documented linear system: 200 * eps * cond * max|rhs|
-    (exp_spline: in log space; buck4: absolute)"""
-    cond = cond_of(case)
-    if case['kind'] == 'exp_spline':
-        C = coeffs[6]
-        rhs = []
-        for j in (sj, ej):
-            Y = j.v - C
-            if Y <= 0:
-                return float('inf')
-            rhs += [abs(math.log(Y)), abs(j.d1 / Y), abs(j.d2 / Y - (j.d1 / Y) ** 2)]
-    else:
-        rhs = [abs(x) for j in (sj, ej) for x in (j.v, j.d1, j.d2)]
-    return 200 * M.EPS * cond * (max(rhs) + 1.0)
-
-
 def term_scale(kind, coeffs, rmin, r):
     """sum of the absolute values of the terms of the advertised shape and of its first two derivatives"""
     if kind == 'exp_spline':
@@ -152,36 +136,52 @@ def check_spline(f, case, s_it, e_it, how, viol, s_obj=None, e_obj=None):
     if len(coeffs) != (7 if kind == 'exp_spline' else 10):
         V('coefficients', 'splineCoefficients has %d entries' % len(coeffs))
         return 0
-    cond = cond_of(case)
     sj, ej = refjet(s_it, float(d)), refjet(e_it, float(a))
     n = 0
-    delta = uncertainty(case, sj, ej, coeffs)
+    K = 2e4 * M.EPS      # backward-error constant of the documented linear solve: row residual <= K * (|A| |x| + |b|)_row
+
+    def numeric_end_error(it, j):
+        """(e1, e2): error of the end potential's slope / curvature when it has no analytic derivative (documented fallback, h = 1e-6)"""
+        if 'custom' not in it:
+            return 0.0, 0.0
+        return 60 * M.EPS * abs(j.v) / M.H + 1e-7 * abs(j.d1), 240 * M.EPS * abs(j.v) / (M.H * M.H) + 60 * M.EPS * abs(j.d1) / M.H + 1e-5 * abs(j.d2)
     # (1) C2 joins of the advertised shape with the end potentials
-    for name, x, ref in (('detach', float(d), sj), ('attach', float(a), ej)):
+    for name, x, ref, it in (('detach', float(d), sj, s_it), ('attach', float(a), ej, e_it)):
+        e1, e2 = numeric_end_error(it, ref)
         if kind == 'exp_spline':
             sh = F.exp_spline(Jet.var(x), *coeffs)
             Y = ref.v - coeffs[6]
+            if Y <= 0:
+                V('join-value', 'the shifted end value at %s is not positive (C = %r, end value %r)' % (name, coeffs[6], ref.v))
+                return n
             P1 = ref.d1 / Y
             P2 = ref.d2 / Y - P1 * P1
-            tols = (abs(Y) * delta, abs(Y) * delta * (1 + abs(P1)), abs(Y) * delta * (1 + 2 * abs(P1) + abs(P2) + P1 * P1))
+            ab = F.polynomial(Jet.var(abs(x)), *[abs(c) for c in coeffs[:6]])
+            t0 = K * (ab.v + abs(math.log(Y)) + 1.0)
+            t1 = K * (ab.d1 + abs(P1) + 1.0) + e1 / Y
+            t2 = K * (ab.d2 + abs(P2) + P1 * P1 + 1.0) + e2 / Y + 2 * abs(P1) * e1 / Y
+            tols = (Y * t0, Y * (abs(P1) * t0 + t1), Y * ((abs(P2) + P1 * P1) * t0 + 2 * abs(P1) * t1 + t2))
         else:
-            sh = F.polynomial(Jet.var(x), *(coeffs[:6] if name == 'detach' else coeffs[6:]))
-            tols = (delta, delta, delta)
-        scale = abs(ref.v) + abs(ref.d1) + abs(ref.d2) + 1.0
+            cs = coeffs[:6] if name == 'detach' else coeffs[6:]
+            sh = F.polynomial(Jet.var(x), *cs)
+            ab = F.polynomial(Jet.var(abs(x)), *[abs(c) for c in cs])
+            tols = (K * (ab.v + abs(ref.v) + 1.0), K * (ab.d1 + abs(ref.d1) + 1.0) + e1, K * (ab.d2 + abs(ref.d2) + 1.0) + e2)
         for q, got, want, t in (('value', sh.v, ref.v, tols[0]), ('slope', sh.d1, ref.d1, tols[1]), ('curvature', sh.d2, ref.d2, tols[2])):
             n += 1
-            if not abs(got - want) <= t + 1e-9 * scale:
-                V('join-%s' % q, '%s of the spline at %s = %r, end potential has %r (cond %.3g, allowance %.3g)' % (q, name, got, want, cond, t + 1e-9 * scale))
+            if not abs(got - want) <= t:
+                V('join-%s' % q, '%s of the spline at %s = %r, end potential has %r (allowance %.3g)' % (q, name, got, want, t))
                 return n
     if kind == 'buck4_spline':
-        lo, hi = F.polynomial(Jet.var(float(rm)), *coeffs[:6]), F.polynomial(Jet.var(float(rm)), *coeffs[6:])
-        scale = abs(sj.v) + abs(sj.d1) + abs(sj.d2) + abs(ej.v) + abs(ej.d1) + abs(ej.d2) + 1.0
-        for q, g1, g2 in (('value', lo.v, hi.v), ('slope', lo.d1, hi.d1), ('curvature', lo.d2, hi.d2)):
+        x = float(rm)
+        lo, hi = F.polynomial(Jet.var(x), *coeffs[:6]), F.polynomial(Jet.var(x), *coeffs[6:])
+        a5 = F.polynomial(Jet.var(abs(x)), *[abs(c) for c in coeffs[:6]])
+        a3 = F.polynomial(Jet.var(abs(x)), *[abs(c) for c in coeffs[6:]])
+        for q, g1, g2, t in (('value', lo.v, hi.v, K * (a5.v + a3.v + 1.0)), ('slope', lo.d1, hi.d1, K * (a5.d1 + a3.d1 + 1.0)), ('curvature', lo.d2, hi.d2, K * (a5.d2 + a3.d2 + 1.0))):
             n += 1
-            if not abs(g1 - g2) <= delta + 1e-9 * scale:
-                V('rmin-%s' % q, '%s jumps across r_min: %r vs %r' % (q, g1, g2))
+            if not abs(g1 - g2) <= t:
+                V('rmin-%s' % q, '%s jumps across r_min: %r vs %r (allowance %.3g)' % (q, g1, g2, t))
                 return n
-        if not abs(lo.d1) <= delta + 1e-9 * scale:
+        if not abs(lo.d1) <= K * (a5.d1 + 1.0):
             V('rmin-stationary', 'slope at r_min is %r, expected 0' % lo.d1)
             return n
     # (2) pointwise: start below detach, end above attach (bit-identical to the end potentials), shape in between
@@ -197,7 +197,8 @@ def check_spline(f, case, s_it, e_it, how, viol, s_obj=None, e_obj=None):
                     return n
             j = refjet(s_it if r <= d else e_it, r)
             sc = abs(j.v) + abs(j.d1) + abs(j.d2) + 1.0
-            if not (abs(got[0] - j.v) <= 1e-9 * sc and abs(got[1] - j.d1) <= 1e-9 * sc and abs(got[2] - j.d2) <= 1e-9 * sc):
+            ne1, ne2 = numeric_end_error(s_it if r <= d else e_it, j)
+            if not (abs(got[0] - j.v) <= 1e-9 * sc and abs(got[1] - j.d1) <= 1e-9 * sc + ne1 and abs(got[2] - j.d2) <= 1e-9 * sc + ne2):
                 V('end-potential', 'at r=%r returns %r, reference end potential %r' % (r, got, (j.v, j.d1, j.d2)))
                 return n
         else:
@@ -215,18 +216,16 @@ def run_case(case):
         return run_buck4(case)
     s_it, e_it = item_of(case['start']), item_of(case['end'])
     d, a, rm, kind = case['detach'], case['attach'], case['rmin'], case['kind']
-    if cond_of(case) > 1e10:
-        return dict(outcome='skipped:ill-conditioned', nontrivial=False, evals=0, violations=[])
-    if kind == 'exp_spline':
-        sj0, ej0 = refjet(s_it, float(d)), refjet(e_it, float(a))
-        C0 = 0.0 if (sj0.v > 0 and ej0.v > 0) else -(1.0 - min(sj0.v, ej0.v))
-        if uncertainty(case, sj0, ej0, [0] * 6 + [C0]) > 1e-7:
-            return dict(outcome='skipped:ill-conditioned-rhs', nontrivial=False, evals=0, violations=[])
     from atsim.potentials.spline import SplinePotential, Buck4_SplinePotential, Custom_SplinePotential, Spline_Point, Exp_Spline, Buck4_Spline
     n = 0
     objs = []
-    so, eo = api_obj(s_it), api_obj(e_it)
-    if kind == 'exp_spline':
+    has_api = 'custom' not in s_it and 'custom' not in e_it
+    so = eo = None
+    if has_api:
+        so, eo = api_obj(s_it), api_obj(e_it)
+    if not has_api:
+        pass
+    elif kind == 'exp_spline':
         objs.append(('SplinePotential', SplinePotential(so, eo, d, a), so, eo))
         so2, eo2 = api_obj(s_it), api_obj(e_it)
         objs.append(('Custom_SplinePotential(Exp_Spline)', Custom_SplinePotential(Exp_Spline(Spline_Point(so2, d), Spline_Point(eo2, a))), so2, eo2))
